@@ -32,12 +32,17 @@ NoSpanArgs == {}
 Obs == <<ObsW, ObsS>>
 Edge == [f |-> Obs, a |-> act', t |-> Obs', qa |-> QuiescentAllowed']
 
-MCInit == Init /\ steps = 0 /\ hist = <<>>
+MCInit == /\ Init /\ steps = 0 /\ hist = <<>>
+          /\ PrintT(ToJson([init |-> Obs, qa |-> QuiescentAllowed]))
 MCNext == /\ Next
           /\ steps' = steps + 1
           /\ UNCHANGED hist
           /\ PrintT(ToJson(Edge))
 MCSpec == MCInit /\ [][MCNext]_mcvars
+\* the same without printing, `steps` part of the state (any number of workers)
+MCQuietNext == Next /\ steps' = steps + 1 /\ UNCHANGED hist
+MCQuietSpec == MCInit /\ [][MCQuietNext]_mcvars
+MCQuietView == <<w, sp, active, steps>>
 MCView == <<w, sp, active>>
 Bound == steps < MaxSteps
 MCArithProp == [][ArithOK]_mcvars
